@@ -7,6 +7,7 @@ import Ptn.C06.Gauge
 import Ptn.C06.SiteCanon
 import Ptn.C06.SiteNorm
 import Ptn.C06.Link
+import Ptn.C06.LinkCanon
 import Ptn.C03.Props
 import Ptn.C17.Examples
 /-! Property theorems for C06, part 2 (Mathlib): the combinatorial theorems are in `Core.lean`
@@ -517,5 +518,131 @@ example : isoNet.WF ∧ IsoStep demoDim id isoNet ⟨0, 1⟩ isoNet' ∧ 2 ∉ i
   ⟨isoNet_wf, by cases isoNet_run with | cons hs hr => cases hr; exact hs, by simp [isoNet]⟩
 
 end linkHalves
+
+/-! ### The link update: canonical form around the link tensor (builder B72)
+
+The network DURING `link a b` (`qrHalf …`: the `R` factor is the tensor of the new node `ℓ`) is canonical around
+`ℓ`, for every time step, every tree, every value-level run of the events before (`LinkCanon.lean`). -/
+section linkCanon
+open Ptn.Ein Ptn.C17 Ptn.C17.RTree Ptn.C05.Disc Ptn.C06.Gauge Ptn.C03
+
+/-- **During every link update the state is canonical around the link tensor.**  Every well-formed tree, every
+scheme, `k` steps; hypotheses on the INITIAL network only (as in `tdvp_event_centre_kids_canon`).  Before every
+event `link a b`, for every value-level run of the events before it: the tree re-rooted at `a` is
+`node a (k1 ++ node b kb :: k2)`, with bond ends `up`, `dn` satisfying `EdgeOK` on every edge; and for EVERY unused
+identifier `ℓ` and EVERY factorisation `F` of the tensor of `a` along its leg `dn b` toward `b` whose `Q` is an
+isometry toward the fresh bond of one dimension (the QR contract): the intermediate network `M = qrHalf …` is
+well-formed, the tree `r' = node ℓ [node a (k1 ++ k2), node b kb]` has the nodes of the old tree and `ℓ`, every edge
+of `r'` satisfies `EdgeOK` in `M`, the doubled sub-trees of the two neighbours of the link tensor are canonical
+(`Kids.Canon`), the norm network around `ℓ` is `Centre.Canon` with distinct labels, and the legs of the centre are
+the two legs of `R`. -/
+theorem tdvp_link_update_kids_canon {R : Type} [CommSemiring R] (dim : Nat → Nat) (cj : R → R)
+    (t : RTree) (hwf : t.WF) (sch : Scheme) (hdef : sch.Defined t) :
+    ∃ u s evs, updatePath t = some u ∧ u.head? = some s ∧ sch.events t = some evs ∧
+      ∀ (dir : Rec) (N0 : VNet R), CanonAt t dir s → N0.WF → BondDims dim N0 → (∀ n ∈ ids t, n ∈ N0.ids) →
+        GaugeInv dim cj N0 dir →
+      ∀ (k : Nat) (p q : List DEv) (a b : Nat) (N : VNet R),
+        (List.replicate k evs).flatten = p ++ DEv.link a b :: q → VRun dim cj N0 p N →
+        N.WF ∧ N.ids = N0.ids ∧ Adj t a b ∧
+        ∃ (k1 kb k2 : List RTree), reroot a [] t = some (RTree.node a (k1 ++ RTree.node b kb :: k2)) ∧
+          ∃ up dn : Nat → Nat,
+            (∀ e ∈ edges (RTree.node a (k1 ++ RTree.node b kb :: k2)), EdgeOK dim cj N up dn e.1 e.2) ∧
+            ∀ (ℓ : Nat), ℓ ∉ N.ids → ∀ (F : QRFact dim (N.tens a) (N.legs a) (dn b) N.next (N.next + 1)),
+              IsoToward dim cj F.Q (N.next :: (N.legs a).erase (dn b)) N.next → dim (N.next + 1) = dim N.next →
+              let M := qrHalf dim N a ℓ (dn b) F
+              let r' := linkTree ℓ a b k1 k2 kb
+              M.WF ∧ (ids r').Nodup ∧ (ids r').Perm (ℓ :: ids (RTree.node a (k1 ++ RTree.node b kb :: k2))) ∧
+              (∀ e ∈ edges r', EdgeOK dim cj M (linkUp N up a) (linkDn N dn a) e.1 e.2) ∧
+              (kidsOf cj M (linkUp N up a) (linkDn N dn a) r'.kids).Canon (ddim dim) ∧
+              (centreOf cj M (linkUp N up a) (linkDn N dn a) r').Canon (ddim dim) ∧
+              (centreOf cj M (linkUp N up a) (linkDn N dn a) r').labels.Nodup ∧
+              ((centreOf cj M (linkUp N up a) (linkDn N dn a) r').phys ++
+                (kidsOf cj M (linkUp N up a) (linkDn N dn a) r'.kids).pairs).Perm
+                  ([N.next + 1, dn b].map dbl) := by
+  obtain ⟨u, s, evs, hu, hs, hev, hall⟩ := tdvp_event_centre_kids_canon dim cj t hwf sch hdef
+  refine ⟨u, s, evs, hu, hs, hev, ?_⟩
+  intro dir N0 hc hwf0 hbd hids hinv k p q a b N hsplit hr
+  obtain ⟨hpre, hNwf, hNids, r, hr1, hr2, hr3, up, dn, hE, _⟩ :=
+    hall dir N0 hc hwf0 hbd hids hinv k p q (DEv.link a b) N hsplit hr
+  obtain ⟨hca, hab⟩ := gpre_pair (Or.inr (Or.inl rfl)) hpre
+  rw [hca] at hr1 hr2
+  obtain ⟨hrwf, _, k1, kb, k2, hk⟩ := c06_reroot_adj_child hwf hab hr1
+  obtain ⟨c, ks⟩ := r
+  simp only [rid] at hr2
+  simp only [kids] at hk
+  subst hr2
+  subst hk
+  refine ⟨hNwf, hNids, hab, k1, kb, k2, hr1, up, dn, hE, ?_⟩
+  intro ℓ hℓ F hiso hdim
+  have hsub : ∀ n ∈ ids (RTree.node c (k1 ++ RTree.node b kb :: k2)), n ∈ N.ids :=
+    fun n hn => hNids ▸ hids n (hr3.subset hn)
+  exact link_kids_canon dim cj hNwf hrwf hsub hℓ hE F hiso hdim
+
+open Matrix NormedSpace in
+/-- **Every link update of a TDVP time step conserves the norm.**  Over the complex numbers with conjugation
+`star`, under the hypotheses of `tdvp_link_update_kids_canon`: during every event `link a b` the embedding
+`E = siteEmbedding …` BUILT from the doubled sub-trees of the two neighbours of the link tensor in the intermediate
+network satisfies, for every Hermitian `H` and every `τ` (the link update runs backward in time: `τ < 0`), that
+`φ ↦ exp(-i τ EᴴHE) φ` conserves `|Eφ|²`.  `P` is the space of the open legs of the centre; the link tensor has none
+(`P = PUnit`), the statement holds for every `P`. -/
+theorem tdvp_link_update_conserves_norm (dim : Nat → Nat) (t : RTree) (hwf : t.WF) (sch : Scheme)
+    (hdef : sch.Defined t) :
+    ∃ u s evs, updatePath t = some u ∧ u.head? = some s ∧ sch.events t = some evs ∧
+      ∀ (dir : Rec) (N0 : VNet ℂ), CanonAt t dir s → N0.WF → BondDims dim N0 → (∀ n ∈ ids t, n ∈ N0.ids) →
+        GaugeInv dim (star : ℂ → ℂ) N0 dir →
+      ∀ (k : Nat) (p q : List DEv) (a b : Nat) (N : VNet ℂ),
+        (List.replicate k evs).flatten = p ++ DEv.link a b :: q → VRun dim (star : ℂ → ℂ) N0 p N →
+        ∃ (k1 kb k2 : List RTree), reroot a [] t = some (RTree.node a (k1 ++ RTree.node b kb :: k2)) ∧
+          ∃ up dn : Nat → Nat,
+            (∀ e ∈ edges (RTree.node a (k1 ++ RTree.node b kb :: k2)),
+              EdgeOK dim (star : ℂ → ℂ) N up dn e.1 e.2) ∧
+            ∀ (ℓ : Nat), ℓ ∉ N.ids → ∀ (F : QRFact dim (N.tens a) (N.legs a) (dn b) N.next (N.next + 1)),
+              IsoToward dim (star : ℂ → ℂ) F.Q (N.next :: (N.legs a).erase (dn b)) N.next →
+              dim (N.next + 1) = dim N.next →
+              let K := kidsOf (star : ℂ → ℂ) (qrHalf dim N a ℓ (dn b) F) (linkUp N up a) (linkDn N dn a)
+                (linkTree ℓ a b k1 k2 kb).kids
+              ∀ (P : Type) [Fintype P] [DecidableEq P]
+                (H : Matrix (Idx (ddim dim) K.physAll × P) (Idx (ddim dim) K.physAll × P) ℂ),
+                H.conjTranspose = H → ∀ (τ : ℝ) (φ : Idx (ddim dim) K.ups × P → ℂ),
+                let E := siteEmbedding (ddim dim) K P
+                star (E.mulVec ((exp ((-Complex.I * (τ : ℂ)) • (E.conjTranspose * H * E))).mulVec φ)) ⬝ᵥ
+                    (E.mulVec ((exp ((-Complex.I * (τ : ℂ)) • (E.conjTranspose * H * E))).mulVec φ))
+                  = star (E.mulVec φ) ⬝ᵥ (E.mulVec φ) := by
+  obtain ⟨u, s, evs, hu, hs, hev, hall⟩ := tdvp_link_update_kids_canon dim (star : ℂ → ℂ) t hwf sch hdef
+  refine ⟨u, s, evs, hu, hs, hev, ?_⟩
+  intro dir N0 hc hwf0 hbd hids hinv k p q a b N hsplit hr
+  obtain ⟨_, _, _, k1, kb, k2, hr1, up, dn, hE, hlink⟩ := hall dir N0 hc hwf0 hbd hids hinv k p q a b N hsplit hr
+  refine ⟨k1, kb, k2, hr1, up, dn, hE, ?_⟩
+  intro ℓ hℓ F hiso hdim K P _ _ H hH τ φ
+  obtain ⟨_, _, _, _, hK, _, hL, _⟩ := hlink ℓ hℓ F hiso hdim
+  have hnd : K.labels.Nodup := by
+    have : (centreOf (star : ℂ → ℂ) (qrHalf dim N a ℓ (dn b) F) (linkUp N up a) (linkDn N dn a)
+        (linkTree ℓ a b k1 k2 kb)).labels =
+        Expr.pairLegs (centreOf (star : ℂ → ℂ) (qrHalf dim N a ℓ (dn b) F) (linkUp N up a) (linkDn N dn a)
+          (linkTree ℓ a b k1 k2 kb)).phys ++ K.labels := rfl
+    rw [this] at hL
+    exact (List.nodup_append.1 hL).2.1
+  exact one_site_update_conserves_norm_of_canonical (ddim dim) dswap dswap_injective (ddim_dswap dim)
+    _ hK hnd ((subOf_isConj _ _ _).2 _) P H hH τ φ
+
+/-! Non-vacuity of the run hypotheses of `tdvp_link_update_kids_canon` / `tdvp_link_update_conserves_norm`: the tree
+`0 → 1`, the integer network `Ptn.C03.isoNet'`, the record `0 > 1`; the event `link 1 0` of a first-order step comes
+after `site 1`, and a value-level run of `site 1` exists; the identifier 2 is unused.  (The hypotheses on the initial
+network are those of `tdvp_update_site_kids_canon`, see the example there.  An integer factorisation `F` of the
+updated tensor of node 1 with an isometric `Q` is NOT exhibited.) -/
+example :
+    let t : RTree := .node 0 [.node 1 []]
+    t.WF ∧ Scheme.events t .first = some [.site 1, .link 1 0, .site 0, .hop 0 1, .init 1] ∧
+    (List.replicate 1 [DEv.site 1, .link 1 0, .site 0, .hop 0 1, .init 1]).flatten =
+      [DEv.site 1] ++ DEv.link 1 0 :: [.site 0, .hop 0 1, .init 1] ∧
+    VRun demoDim id isoNet' [.site 1] (siteWrite isoNet' 1 (fun σ => (σ 3 : Int) + 7)) ∧
+    2 ∉ (siteWrite isoNet' 1 (fun σ => (σ 3 : Int) + 7)).ids := by
+  refine ⟨by decide, by decide, rfl, VRun.cons (VStep.site _ 1 _ ?_) (VRun.nil _), by
+    simp [siteWrite, isoNet', gaugeStep, isoNet]⟩
+  intro σ τ h
+  have h3 := h 3 (by simp [isoNet', gaugeStep, isoNet])
+  simp [h3]
+
+end linkCanon
 
 end Ptn.C06
